@@ -79,12 +79,24 @@ func c16Body() func(h []dsim.Rec) {
 	// all endpoint kinds, possibly several of one kind (their channels then share a label)
 	kinds := []int{epCustom, epTCPServer, epUDPServer, epCustom, epTCPServer, epUDPServer, epTCPClient, epUDPClient, epSerial, epBroadcast}
 	neps := 1 + dsim.Choose(3)
+	sharedIdentities := dsim.Choose(3) == 2
+	twins := sharedIdentities && dsim.Choose(2) == 1
 	for i := 0; i < neps; i++ {
-		e.addEndpoint(kinds[dsim.Choose(len(kinds))])
+		k := kinds[dsim.Choose(len(kinds))]
+		if twins && i < 2 {
+			// the same vehicle behind two endpoints of one kind: two channels with one label
+			k = []int{epCustom, epSerial}[dsim.Choose(2)]
+			if i == 1 {
+				k = e.cfg.eps[0].kind
+			}
+		}
+		e.addEndpoint(k)
+	}
+	if twins && neps < 2 {
+		e.addEndpoint(e.cfg.eps[0].kind)
 	}
 	cons := &consumer{e: e}
 	e.cons = cons
-	sharedIdentities := dsim.Choose(3) == 2
 	var links []*link
 	var senders []*hbSender
 	d := &driverSet{e: e}
@@ -99,7 +111,7 @@ func c16Body() func(h []dsim.Rec) {
 				// the same vehicle is heard on several channels
 				s.sys, s.comp = byte(20+k), 1
 				count("cov:identity-on-several-channels")
-			} else if k == 0 && dsim.Choose(6) == 0 {
+			} else if k == 0 && dsim.Choose(4) == 0 {
 				// a flight controller that shares the node's system id (the companion-computer set-up)
 				s.sys, s.comp = cfg.sysID, cfg.effCompID()+1+byte(dsim.Choose(3))
 				count("cov:sender-with-the-nodes-system-id")
